@@ -317,7 +317,7 @@ def _interpret(res, text, c):
             msgs = []
             if st == "failed":
                 for d in other:
-                    if short.split("::")[-1] in d.get("rendered", ""):
+                    if short.split("::")[-1] in d.get("rendered", "") or _enclosing_fn(text, d) == short.split("::")[-1]:
                         msgs.append(dict(message=d.get("message", ""), rendered=d.get("rendered", "")[:1500]))
                         if any(u in d.get("message", "") for u in UNDECIDED_MSGS):
                             st = "undecided"
@@ -334,6 +334,24 @@ def _interpret(res, text, c):
         res.status = "undecided"
         res.reason = "verus reported %d errors that could not be attributed: %s" % (
             res.errors, "; ".join(d.get("message", "")[:160] for d in other[:3]))
+
+
+def _enclosing_fn(text, d):
+    """name of the `fn` whose text contains the diagnostic's primary span (for lemmas of prelude/lemma files)"""
+    try:
+        sp = [x for x in d.get("spans", []) if x.get("is_primary")] or d.get("spans", [])
+        pos = sp[0]["byte_start"]
+        head = text.encode()[:pos + 200].decode(errors="ignore")
+        m = None
+        for m in re.finditer(r"\bfn\s+(\w+)", head[:len(head) - 0]):
+            if m.start() > pos:
+                break
+            last = m
+        # the last `fn NAME` that starts at or before pos
+        cands = [x for x in re.finditer(r"\bfn\s+(\w+)", head) if x.start() <= pos + 10]
+        return cands[-1].group(1) if cands else None
+    except Exception:
+        return None
 
 
 def _name_match(short, r):
